@@ -228,7 +228,7 @@ Step(ev) ==
      /\ Chk({"C12"}, "DlQuery", (ev.e \in Queries /\ stable) => QueryOK(ev))
      \* C14
      /\ Chk({"C14"}, "OvExactlyOne", (creation \/ ev.e = "new_clause") => OvExactlyOne(M, OvsAfter))
-     /\ Chk({"C14"}, "OvEquality", \A i \in DOMAIN ev.hooks : ev.hooks[i].k = "oveq" => OvEqOK(M, S.ovs, ev.hooks[i]))
+     /\ Chk({"C14", "C13"}, "OvEquality", \A i \in DOMAIN ev.hooks : ev.hooks[i].k = "oveq" => OvEqOK(M, S.ovs, ev.hooks[i]))
      /\ Chk({"C14"}, "OvDomain", OvDomainOK(ev, S.ovs))
      \* C09
      /\ Chk({"C09", "C11"}, "LraValuesAreModel", stable => LraValuesOK(S.atoms, ev, defs2))
